@@ -1097,7 +1097,9 @@ def propagate_toplevel(formula: FNode, env: Optional["pysmt.environment.Environm
         if a.node_id() == b.node_id():
             return 0
         if a.is_constant() and b.is_constant():
-            return a.constant_value() - b.constant_value()
+            # Note: the values might not support subtraction (e.g., strings)
+            av, bv = a.constant_value(), b.constant_value()
+            return (av > bv) - (av < bv)
         if a.is_constant():
             return -1
         if b.is_constant():
